@@ -39,7 +39,27 @@ def import_library():
         sys.path.insert(0, REPO)
     import file_builder  # noqa
     logging.disable(logging.CRITICAL)
+    _own_directory_sizes()
     return file_builder
+
+
+_DIRSIZE = 4096
+
+
+def _own_directory_sizes():
+    """The size the OS reports for a *directory* depends on the file system
+    (constant on ext4, a function of the entries on tmpfs/btrfs).  It is an
+    environment answer, so the harness decides it: directories have the
+    constant size of an ext4 directory.  Sizes of regular files are real."""
+    if getattr(os.path.getsize, '_fbmc', False):
+        return
+    import stat as _stat
+
+    def getsize(filename):
+        st = os.stat(filename)
+        return _DIRSIZE if _stat.S_ISDIR(st.st_mode) else st.st_size
+    getsize._fbmc = True
+    os.path.getsize = getsize
 
 
 class Sandbox:
